@@ -1502,18 +1502,20 @@ fn lookup_staged_digest_and_content_path(
     src_version_num: VersionNum,
     src_path: &LogicalPath,
 ) -> Result<Option<(HexDigest, Rc<ContentPath>)>> {
-    let staging_prefix = format!("{}/", inventory.head);
-
     match inventory
         .get_version(src_version_num)?
         .lookup_digest(src_path)
     {
         Some(digest) => {
-            let content_path =
-                inventory.content_path_for_digest(digest, VersionRef::Head, Some(src_path))?;
+            // A file is only staged if its own direct content path is in the manifest. Any
+            // other staged content path with the same digest belongs to a different logical
+            // path, and must not be copied or moved in its place.
+            let content_path = inventory.new_content_path(src_path);
 
-            if content_path.starts_with(&staging_prefix) {
-                Ok(Some((digest.as_ref().clone(), content_path.clone())))
+            if src_version_num == inventory.head
+                && inventory.digest_for_content_path(&content_path) == Some(digest)
+            {
+                Ok(Some((digest.as_ref().clone(), Rc::new(content_path))))
             } else {
                 Ok(None)
             }
